@@ -290,6 +290,9 @@ def rule_history_record(ctx):
 
 RULES = [("revocation-table", rule_revocation_table), ("rights-monotone", rule_rights_monotone), ("clock", rule_clock), ("ep", rule_ep),
          ("fullmove", rule_fullmove), ("placement", rule_placement), ("history-record", rule_history_record)]
+# "remembers exactly the earlier positions" is about keys: the key recorded for a position must be the key of that position
+# (C04 pairing rules), also after the make/unmake probes of move generation
+RULES += engine.premise_rules("c04", ["piece-pair", "turn-pair", "ep-pair", "castle-pair", "castle-revert"])
 
 
 def run(tier):
